@@ -1,6 +1,6 @@
 (* client/handshake.rs: the local handshake DRIVER -- get_request_addr, recognize (peek loop, 1024-byte window,
    httparse::Request::parse with zero header slots), consume_request_head (peek loop, 8192-byte window) and the
-   SOCKS5 branch (protocol/socks5/handshake.rs::server::no_auth over tokio_util FramedRead).  Definitions only.
+   SOCKS5 branch (protocol/socks5/handshake.rs::server::no_auth, read_message: one byte at a time).  Definitions only.
 
    httparse 1.10.1 (src/lib.rs) is modelled as far as `recognize` can observe it: Request::parse sets `method`
    after parse_method and `path` after parse_uri; everything behind the path only influences the status.
@@ -209,12 +209,15 @@ Definition recognize_step (w : bytes) : decision :=
     else match p, m with None, Some _ => DTooLong | _, _ => DUnknown end
   end.
 
-(* consume_request_head: one iteration on the peeked window *)
+(* consume_request_head: one iteration on the peeked window.  `start` = the first byte that is neither CR nor LF
+   (the empty lines httparse skips); CRLFCRLF is searched from there; start + end + 4 bytes are consumed *)
 Definition CRLFCRLF : bytes := [13; 10; 13; 10].
 Inductive consume := CConsume (n : N) | CWait | CFail.
+Definition is_crlf (b : N) : bool := (b =? ch_cr) || (b =? ch_lf).
 Definition consume_head_step (w : bytes) : consume :=
-  match find_sub CRLFCRLF w with
-  | Some e => CConsume (N.of_nat e + 4)
+  let body := span is_crlf w in                      (* buf[start..len] *)
+  match find_sub CRLFCRLF body with
+  | Some e => CConsume ((lenN w - lenN body) + N.of_nat e + 4)
   | None => if (lenN w =? 0) || (lenN w =? HEAD_WINDOW) then CFail else CWait
   end.
 
@@ -255,10 +258,10 @@ Definition REPLY_200 : bytes :=     (* "HTTP/1.1 200 Connection established\r\n\
 Definition REPLY_414 : bytes :=     (* "HTTP/1.1 414 URI Too Long\r\n\r\n" *)
   [72;84;84;80;47;49;46;49;32;52;49;52;32;85;82;73;32;84;111;111;32;76;111;110;103;13;10;13;10].
 
-(* --- SOCKS5: server::no_auth over FramedRead (8 KiB buffer).  A read takes everything that has arrived, up
-   to the buffer's capacity (the handshake is at most 519 bytes, so the buffer never fills before it ends);
-   whatever FramedRead has read is gone from the socket when the reader is dropped. --- *)
-Definition S5_READ_CAP : N := 8192.
+(* --- SOCKS5: server::no_auth.  read_message decodes what is buffered and, while the decoder wants more, takes
+   ONE byte from the stream (read_u8): exactly the greeting and exactly the request leave the stream, whatever
+   has arrived behind them.  The reads block until their byte arrives, so the arrival history plays no role;
+   EOF (nothing more will come) inside a message is an error. --- *)
 Definition S5_METHOD_REPLY : bytes := [5; 0].
 Definition s5_command_reply (status : N) (local : addr) : bytes := [5; status; 0] ++ s5_encode local.
 
@@ -272,41 +275,97 @@ Definition s5_finish (local : addr) (cmd : N) (dst : addr) (read : N) : outcome 
     | _ => Tunnel KSocks5 dst reply read
     end.
 
-(* second message: decode what is buffered first (the decoder was swapped, the buffer kept), read when it is
-   incomplete.  `c` = bytes consumed by the greeting, `r` = bytes read so far: buffer = s[c..r] *)
-Fixpoint s5_request_loop (s : bytes) (local : addr) (c r : N) (obs : list N) : outcome :=
-  match s5_command_request (dropN c (takeN r s)) with
-  | Ok (_, Some (cmd, dst)) => s5_finish local cmd dst r
-  | Ok (_, None) =>
-    match obs with
-    | [] => Refused RSocks S5_METHOD_REPLY          (* EOF inside the request *)
-    | a :: t => s5_request_loop s local c (N.max r (N.min a S5_READ_CAP)) t
-    end
-  | Err _ => Refused RSocks S5_METHOD_REPLY
-  | Panic => Crashed
+Inductive s5_msg (A : Type) :=
+| MItem (item : A) (buf : bytes) (unread : bytes)     (* the item, what the decoder left in `buf`, what is still in the stream *)
+| MEof | MErr | MPanic.
+Arguments MItem {A}. Arguments MEof {A}. Arguments MErr {A}. Arguments MPanic {A}.
+Fixpoint s5_read_message {A : Type} (dec : bytes -> res (bytes * option A)) (buf unread : bytes) : s5_msg A :=
+  match dec buf with
+  | Ok (buf', Some item) => MItem item buf' unread
+  | Ok (buf', None) => match unread with [] => MEof | x :: t => s5_read_message dec (buf' ++ [x]) t end
+  | Err _ => MErr
+  | Panic => MPanic
   end.
-(* first message: read (a read that finds nothing new stays blocked until the next arrival), then decode *)
-Fixpoint s5_greeting_loop (s : bytes) (local : addr) (r : N) (obs : list N) : outcome :=
-  match obs with
-  | [] => Refused RSocks []                          (* EOF inside the greeting *)
-  | a :: t =>
-    let r' := N.max r (N.min a S5_READ_CAP) in
-    match s5_initial_request (takeN r' s) with
-    | Ok (rest, Some _) => s5_request_loop s local (r' - lenN rest) r' t
-    | Ok (_, None) => s5_greeting_loop s local r' t
-    | Err _ => Refused RSocks []
-    | Panic => Crashed
+
+Definition s5_handshake (s : bytes) (local : addr) : outcome :=
+  match s5_read_message s5_initial_request [] s with
+  | MItem _ buf unread =>
+    match s5_read_message s5_command_request buf unread with
+    | MItem (cmd, dst) _ unread' => s5_finish local cmd dst (lenN s - lenN unread')
+    | MEof | MErr => Refused RSocks S5_METHOD_REPLY
+    | MPanic => Crashed
     end
+  | MEof | MErr => Refused RSocks []
+  | MPanic => Crashed
   end.
 
 (* get_request_addr *)
 Definition handshake (s : bytes) (local : addr) (hist : list N) : outcome :=
   let (d, rest) := recognize_loop s (observed s hist) in
   match d with
-  | DSocks5 => s5_greeting_loop s local 0 rest
+  | DSocks5 => s5_handshake s local
   | DHttp a => Tunnel KHttp a [] 0
   | DHttps a =>
     match consume_loop s rest with
+    | CConsume n => Tunnel KHttps a REPLY_200 n
+    | CWait => Refused RTimeout []
+    | CFail => Refused RHead []
+    end
+  | DWait => Refused RTimeout []
+  | DTooLong => Refused RTooLong REPLY_414
+  | DUnknown => Refused RUnknown []
+  | DError => Refused RBadTarget []
+  | DPanic => Crashed
+  end.
+
+(* ------------------------------------------------------------------------------------------ *)
+(* the behaviour BEFORE the repairs fad5d1a / 32d4108, kept for regression sensitivity           *)
+(* (HandshakeFacts: v0_socks5_early_data_lost, v0_connect_after_empty_lines_forwarded)          *)
+(* ------------------------------------------------------------------------------------------ *)
+(* consume_request_head searched CRLFCRLF from the first byte of the window *)
+Definition consume_head_step_v0 (w : bytes) : consume :=
+  match find_sub CRLFCRLF w with
+  | Some e => CConsume (N.of_nat e + 4)
+  | None => if (lenN w =? 0) || (lenN w =? HEAD_WINDOW) then CFail else CWait
+  end.
+Fixpoint consume_loop_v0 (s : bytes) (obs : list N) : consume :=
+  match obs with
+  | [] => CWait
+  | a :: t => match consume_head_step_v0 (window HEAD_WINDOW s a) with CWait => consume_loop_v0 s t | c => c end
+  end.
+(* no_auth ran over FramedRead (8 KiB buffer): a read took everything that had arrived; what had been read
+   beyond the request was dropped with the reader.  `c` = bytes consumed by the greeting, `r` = bytes read *)
+Definition S5_READ_CAP : N := 8192.
+Fixpoint s5_request_loop_v0 (s : bytes) (local : addr) (c r : N) (obs : list N) : outcome :=
+  match s5_command_request (dropN c (takeN r s)) with
+  | Ok (_, Some (cmd, dst)) => s5_finish local cmd dst r
+  | Ok (_, None) =>
+    match obs with
+    | [] => Refused RSocks S5_METHOD_REPLY
+    | a :: t => s5_request_loop_v0 s local c (N.max r (N.min a S5_READ_CAP)) t
+    end
+  | Err _ => Refused RSocks S5_METHOD_REPLY
+  | Panic => Crashed
+  end.
+Fixpoint s5_greeting_loop_v0 (s : bytes) (local : addr) (r : N) (obs : list N) : outcome :=
+  match obs with
+  | [] => Refused RSocks []
+  | a :: t =>
+    let r' := N.max r (N.min a S5_READ_CAP) in
+    match s5_initial_request (takeN r' s) with
+    | Ok (rest, Some _) => s5_request_loop_v0 s local (r' - lenN rest) r' t
+    | Ok (_, None) => s5_greeting_loop_v0 s local r' t
+    | Err _ => Refused RSocks []
+    | Panic => Crashed
+    end
+  end.
+Definition handshake_v0 (s : bytes) (local : addr) (hist : list N) : outcome :=
+  let (d, rest) := recognize_loop s (observed s hist) in
+  match d with
+  | DSocks5 => s5_greeting_loop_v0 s local 0 rest
+  | DHttp a => Tunnel KHttp a [] 0
+  | DHttps a =>
+    match consume_loop_v0 s rest with
     | CConsume n => Tunnel KHttps a REPLY_200 n
     | CWait => Refused RTimeout []
     | CFail => Refused RHead []
